@@ -140,10 +140,29 @@ pub fn parse_line(line: &str) -> (r: LineInfo) { unimplemented!() }
 pub fn do_expansion(sh: &mut Shell, tokens: &mut Tokens) { unimplemented!() }
 // ghost record of the token list that planning starts from (after expansion and NAME=VALUE draining)
 pub ghost struct PlanTrace { pub planned: Seq<Token> }
+// ---- what is taken off the line as assignments before operators are looked for (C13): the untagged NAME=value words the line STARTS with,
+// one after the other, and nothing else. The pattern is the one in the code; that it means "starts with NAME=" is validated by axcheck (assign_ptn).
+pub open spec fn drain_ptn() -> Seq<char> { "(?s)^([a-zA-Z0-9_]+)=(.*)$"@ }
+pub open spec fn is_assign_tok(t: Token) -> bool { unq(t) && spec_re_contains(t.1@, drain_ptn()) }
+pub open spec fn drained(o: Seq<Token>, n: Seq<Token>) -> bool {
+    exists|k: int| 0 <= k <= o.len() && n == o.skip(k) && (forall|j: int| 0 <= j < k ==> is_assign_tok(#[trigger] o[j])) && (k < o.len() ==> !is_assign_tok(o[k]))
+}
+// used by from_line: the contract below is the one proved for the real function text (//@FN drain_env_tokens_real, same clause), plus the ghost record
 #[verifier::external_body]
 pub fn drain_env_tokens(tokens: &mut Tokens, Tracked(tr): Tracked<&mut PlanTrace>) -> (r: HashMap<String, String>)
-    ensures final(tr).planned == final(tokens)@,
+    ensures final(tr).planned == final(tokens)@, drained(old(tokens)@, final(tokens)@),
 { unimplemented!() }
+pub struct VxRe { pub id: i32 }
+#[verifier::external_body]
+pub fn vx_regex_new(ptn: &str) -> (r: VxRe) { unimplemented!() }
+// the captures loop of drain_env_tokens: name := group 1, value := unquote(group 2), inserted into the map (regex captures: outside Verus)
+#[verifier::external_body]
+pub fn vx_collect_assignment(re: &VxRe, text: &str, envs: &mut HashMap<String, String>) { unimplemented!() }
+#[verifier::external_body]
+pub fn vx_drain_front(tokens: &mut Tokens, n: usize)
+    requires n <= old(tokens)@.len()
+    ensures final(tokens)@ == old(tokens)@.skip(n as int)
+{ tokens.drain(0..n); }
 pub open spec fn gt_free(t: Token) -> bool { !unq(t) || !t.1@.contains('>') }
 pub open spec fn verbatim_hyp(planned: Seq<Token>) -> bool {
     plain_args(planned) && planned.len() > 0 && (forall|i: int| 0 <= i < planned.len() ==> !is_pipe(#[trigger] planned[i]))
@@ -189,6 +208,7 @@ pub fn vx_captures2(ptn: &str, word: &str) -> (r: Option<VxCaps>)
 //@FN split_tokens_by_pipes
 //@FN tokens_to_redirections
 //@FN split_glued_input_redirections
+//@FN drain_env_tokens_real
 impl Command {
 //@FN Command::from_tokens
 //@FN Command::has_redirect_from
@@ -361,6 +381,22 @@ from_line = Fn(T, 'from_line', impl='CommandLine', ret='r',
                '  lemma_join_single(cmds_view(__v0@), tokens@); lemma_tsv_props(__v0@[0]@, tokens@); }',
            'loop-0-body-entry': 'lemma_tsv_props(__v0@[__i0 as int]@, __v0@[0]@);'},
 )
+# the real drain_env_tokens (types.rs), verified under another name because from_line calls it with a ghost argument; the clause is the one from_line relies on
+drain_real = Fn(T, 'drain_env_tokens', rename='drain_env_tokens_real', ret='r', props=('C13',),
+    pre_rewrites=[
+        Rw('Regex::new(r"(?s)^([a-zA-Z0-9_]+)=(.*)$").unwrap()', 'vx_regex_new(r"(?s)^([a-zA-Z0-9_]+)=(.*)$")', rule='R10', why='Regex::new of a literal pattern (cannot fail)'),
+        Rw(r'for cap in re\.captures_iter\(text\) \{.*?\n        \}(/\*@L\d+\*/)?\n', 'vx_collect_assignment(&re, text, &mut envs);\n', regex=True, rule='R10',
+           why='the captures loop (name / unquoted value into the map) through an opaque shim: it does not touch the token list'),
+        Rw('tokens.drain(0..n);', 'vx_drain_front(tokens, n);', rule='R12', why='Vec::drain(0..n) through a shim: the first n elements go'),
+        Rw('libs::re::re_contains(', 're_contains(', required=False, rule='R0'),
+    ],
+    let_types={'envs': 'HashMap<String, String>', 'n': 'usize'},
+    ensures=[('C13.drain.exactly_the_untagged_assignments_the_line_starts_with_are_taken_off', 'drained(old(tokens)@, final(tokens)@)')],
+    loops={0: Loop(invariant_except_break=[('C13.inv.drain.count', 'n == __i0')], invariant=[
+        ('C13.inv.drain.prefix', 'n <= __i0 && tokens@ == old(tokens)@ && forall|j: int| 0 <= j < n ==> is_assign_tok(#[trigger] tokens@[j])'),
+    ], ensures=[('C13.inv.drain.stop', 'n <= tokens@.len() && tokens@ == old(tokens)@ && (forall|j: int| 0 <= j < n ==> is_assign_tok(#[trigger] tokens@[j])) && (n < tokens@.len() ==> !is_assign_tok(tokens@[n as int]))')])},
+    hints={'loop-0-exit': 'assert(tokens@.skip(0) =~= tokens@);'},
+)
 cl_is_empty = Fn(T, 'is_empty', impl='CommandLine', ret='r', ensures=[('C05.cl.is_empty', 'r == (self.commands@.len() == 0)')])
 cl_with_pipeline = Fn(T, 'with_pipeline', impl='CommandLine', ret='r', ensures=[('C02.cl.with_pipeline', 'r == (self.commands@.len() > 1)')])
 cl_single_builtin = Fn(T, 'is_single_and_builtin', impl='CommandLine', ret='r',
@@ -368,13 +404,14 @@ cl_single_builtin = Fn(T, 'is_single_and_builtin', impl='CommandLine', ret='r',
     ensures=[('C02.cl.single_builtin', 'r ==> self.commands@.len() == 1')])
 
 UNIT = Unit('U-PLAN', TEMPLATE,
-            fns=[split_tokens_by_pipes, tokens_to_redirections, split_glued, from_tokens, has_redirect_from, has_here_string, cmd_is_builtin,
+            fns=[split_tokens_by_pipes, tokens_to_redirections, split_glued, drain_real, from_tokens, has_redirect_from, has_here_string, cmd_is_builtin,
                  from_line, cl_is_empty, cl_with_pipeline, cl_single_builtin],
             types=[TypeItem(T, 'struct', 'LineInfo'), TypeItem(T, 'struct', 'Command'), TypeItem(T, 'struct', 'CommandLine')],
             props=('C01', 'C13', 'C04', 'C05', 'C02'))
 TRUSTED = common.TRUSTED_STR + common.TRUSTED_TOKEN + [
     'regex captures of ptn1/ptn2 in tokens_to_redirections are uninterpreted (vx_captures); Regex::new failure path dropped; capture groups 1..3 assumed to participate',
     'axiom_re_gt: re_contains(t, ">") == t.contains(\'>\') (validated against the regex crate on every run)',
-    'parse_line, do_expansion, drain_env_tokens, tools::is_builtin are external in this unit (tokenizer in U-TOK, expansion in U-EXP)',
+    'parse_line, do_expansion, tools::is_builtin are external in this unit (tokenizer in U-TOK, expansion in U-EXP)',
+    'drain_env_tokens: the real text is verified as drain_env_tokens_real (its captures loop through an opaque shim); from_line calls an external twin with the same clause plus the ghost record of the planned tokens',
     'Iterator::any / position closures of from_tokens through shims carrying their std contracts',
 ]
